@@ -145,6 +145,38 @@ static void phase_shard(long shard, void *arg) {
     }
 #endif
 }
+/* ---------- api: the object API over mode sequences ----------
+ * "no leak" is also a property of what eav_setup does with what the object holds: every sequence of <= 4 set-ups over {822, 5321, 5322, 6531,
+ * an invalid value}, a menu of addresses validated after each, eav_free at the end - then nothing may be left allocated (LeakSanitizer's
+ * recoverable check after every sequence; ASan/UBSan watch the calls).  shard = sequence number in base 5. */
+static void api_shard(long shard, void *arg) {
+    (void)arg;
+#ifndef ASCII_ONLY
+    static const char *const MENU[] = { "user@example.com", "user@host.zzzzq", "\xd0\xb6@\xd0\xbf\xd0\xbe\xd1\x87\xd1\x82\xd0\xb0.\xd1\x80\xd1\x84", "user@xn--zz.com", "user@[192.0.2.1]", "bad..dots@a.org", "", "user@a.museum" };
+    static const int RV[5] = { EAV_RFC_822, EAV_RFC_5321, EAV_RFC_5322, EAV_RFC_6531, 77 };
+    int seq[4], len = 0; long k = shard; while (len < 4) { seq[len++] = (int)(k % 5); k /= 5; }
+    for (int upto = 1; upto <= 4; upto++) {
+        if (upto < 4 && seq[upto] != 0) continue;          /* shorter sequences once: when the unused tail is all zeros */
+        long acc = 0; eav_t *e = malloc(sizeof *e); memset(e, 0xA5, sizeof *e); eav_init(e);
+        for (int i = 0; i < upto; i++) {
+            e->rfc = RV[seq[i]]; e->tld_check = (i & 1) == 0;
+            int rc = eav_setup(e); MC_ADD(C_CALLS, 1);
+            if (rc != 0 && i == 0) break;                     /* never set up successfully: validation is not defined */
+            for (unsigned a = 0; a < sizeof MENU / sizeof MENU[0]; a++) { acc += eav_is_email(e, MENU[a], strlen(MENU[a])); const char *m = eav_errstr(e); acc += m ? m[0] : 0; MC_ADD(C_CALLS, 1); MC_ADD(C_EVAL, 1); }
+        }
+        eav_free(e); free(e); SINKHOLE += acc;
+#ifdef HAVE_LSAN
+        if (__lsan_do_recoverable_leak_check()) {
+            char cfg[64]; snprintf(cfg, sizeof cfg, "shard=%ld upto=%d", shard, upto);
+            mc_violation("api", "allocation-not-released-after-a-mode-sequence", "", cfg, "", 0, "LeakSanitizer: blocks left after set-ups %d,%d,%d,%d (first %d used; 4 = invalid value) with validations in between and eav_free", seq[0], seq[1], seq[2], seq[3], upto);
+            return;
+        }
+#endif
+    }
+#else
+    (void)shard;
+#endif
+}
 /* ---------- huge: megabyte-sized addresses ----------
  * Four shapes of 12 MiB (thorough: 1, 8, 12, 64 MiB) - one giant label, valid labels in a name far too long, a giant local part, a giant U-label -
  * through every entry point: anything proportional to the input that the library puts on the stack (a VLA, alloca, recursion) or into a
@@ -180,6 +212,7 @@ static int do_replay(void) {
     mc_replay_t r; if (mc_load_replay(mc_replay, &r)) return 2;
     mc_replay_hit = 0;
     if (!strcmp(r.sub, "huge") || !strcmp(r.sub, "crash:huge")) { HUGE_SZ[0] = (size_t)strtoull(strstr(r.cfg, "size=") + 5, NULL, 10); huge_shard(mc_cfg_int(r.cfg, "shape", 0), NULL); }
+    else if (!strcmp(r.sub, "api")) api_shard(mc_cfg_int(r.cfg, "shard", 0), NULL);
     else if (!strcmp(r.sub, "leak")) { CURPH = (int)mc_cfg_int(r.cfg, "phase", 0); phase_shard(mc_cfg_int(r.cfg, "shard", 0), NULL); }
     else { const char *q = r.sub; if (!strncmp(q, "crash:", 6)) q += 6; for (int i = 0; i < CP_N; i++) if (!strncmp(q, corpus_name(i), strlen(q))) CURPH = i; sink(r.in, (size_t)r.len, NULL);
 #ifdef GUARD
@@ -200,6 +233,7 @@ int main(int argc, char **argv) {
     if (mc_replay) return do_replay();
     for (int ph = 0; ph < CP_N; ph++) { if (ph == CP_SCALARS && !mc_thorough) continue;   /* 1.1M code points x every entry point: thorough tier only (C03 sweeps them every time) */
         CURPH = ph; char nm[72]; snprintf(nm, sizeof nm, "%.48s (N=%d)", corpus_name(ph), corpus_N(ph)); mc_parallel(nm, corpus_shards(ph), phase_shard, NULL); }
+    mc_parallel("api: every sequence of <= 4 set-ups over {822, 5321, 5322, 6531, invalid} x 8 addresses after each, eav_free, leak check", 625, api_shard, NULL);
     { HUGE_NSZ = 0; if (mc_thorough) { HUGE_SZ[HUGE_NSZ++] = (size_t)1 << 20; HUGE_SZ[HUGE_NSZ++] = (size_t)8 << 20; }
       HUGE_SZ[HUGE_NSZ++] = (size_t)12 << 20; if (mc_thorough) HUGE_SZ[HUGE_NSZ++] = (size_t)64 << 20;
       mc_parallel(mc_thorough ? "huge: 4 shapes x 1, 8, 12, 64 MiB through every entry point" : "huge: 4 shapes x 12 MiB through every entry point", 4L * HUGE_NSZ, huge_shard, NULL); }
